@@ -69,6 +69,13 @@ class Ctx:
         self.types = dict(types)  # python local name -> 'Nat' | 'Bool' | 'Int'
         self.helpers = helpers or {}  # free function name -> lean name
         self.counter = 0
+        self.all_int = False  # every number is a Python int of either sign (Lean Int)
+        self.attr_map = {}  # dotted attribute path -> (lean term, type)
+        self.ranges = {}  # local name bound to range(lo, hi) -> (lo term, hi term)
+        self.skip_calls = set()  # dotted call targets whose effect is modelled elsewhere
+        self.skip_assign = {}  # dotted assignment target -> required RHS name
+        self.raises = False
+        self.ret_type = None
 
     def fresh(self, base):
         self.counter += 1
@@ -85,8 +92,44 @@ def as_bool(ctx, node):
     raise TranslationError(f"truthiness of type {t}")
 
 
+def dotted(node):
+    parts = []
+    while isinstance(node, ast.Attribute):
+        parts.append(node.attr)
+        node = node.value
+    if isinstance(node, ast.Name):
+        parts.append(node.id)
+        return ".".join(reversed(parts))
+    return None
+
+
 def expr(ctx, node):
     """returns (lean_term, type)"""
+    if ctx.all_int:
+        if isinstance(node, ast.Constant) and isinstance(node.value, int) and not isinstance(node.value, bool):
+            return f"({node.value} : Int)", "Int"
+        if isinstance(node, ast.Attribute) and dotted(node) in ctx.attr_map:
+            return ctx.attr_map[dotted(node)]
+        if isinstance(node, ast.UnaryOp) and isinstance(node.op, ast.USub):
+            a, ta = expr(ctx, node.operand)
+            if ta != "Int":
+                raise TranslationError("unary minus on non-Int")
+            return f"(-{a})", "Int"
+        if isinstance(node, ast.BinOp) and isinstance(node.op, (ast.Add, ast.Sub, ast.Mult)):
+            a, ta = expr(ctx, node.left)
+            b, tb = expr(ctx, node.right)
+            if ta != "Int" or tb != "Int":
+                raise TranslationError(f"Int binop on {ta},{tb}")
+            op = {ast.Add: "+", ast.Sub: "-", ast.Mult: "*"}[type(node.op)]
+            return f"({a} {op} {b})", "Int"
+        if isinstance(node, ast.Compare) and len(node.ops) == 1 and isinstance(node.ops[0], (ast.In, ast.NotIn)) \
+                and isinstance(node.comparators[0], ast.Name) and node.comparators[0].id in ctx.ranges:
+            x, tx = expr(ctx, node.left)
+            lo, hi = ctx.ranges[node.comparators[0].id]
+            t = f"(decide ({lo} ≤ {x}) && decide ({x} < {hi}))"
+            if isinstance(node.ops[0], ast.NotIn):
+                t = f"(!{t})"
+            return t, "Bool"
     if isinstance(node, ast.Constant):
         if isinstance(node.value, bool):
             return ("true" if node.value else "false"), "Bool"
@@ -231,6 +274,28 @@ def block(ctx, stmts, result):
             ctx.state_fields = saved
             return f"let {new} := {t}\n{body}"
         raise TranslationError("augmented assignment target")
+    if isinstance(s, ast.Assign) and len(s.targets) == 1 and isinstance(s.targets[0], ast.Name) \
+            and isinstance(s.value, ast.Call) and isinstance(s.value.func, ast.Name) and s.value.func.id == "range" \
+            and len(s.value.args) == 2:
+        lo, tl = expr(ctx, s.value.args[0])
+        hi, th = expr(ctx, s.value.args[1])
+        saved = dict(ctx.ranges)
+        ctx.ranges[s.targets[0].id] = (lo, hi)
+        body = block(ctx, rest, result)
+        ctx.ranges = saved
+        return body
+    if isinstance(s, ast.Assign) and len(s.targets) == 1 and dotted(s.targets[0]) in ctx.skip_assign:
+        need = ctx.skip_assign[dotted(s.targets[0])]
+        if not (isinstance(s.value, ast.Name) and s.value.id == need):
+            raise TranslationError(f"{dotted(s.targets[0])} is assigned something other than {need}")
+        ctx.seen_assign = getattr(ctx, "seen_assign", set()) | {dotted(s.targets[0])}
+        return block(ctx, rest, result)
+    if isinstance(s, ast.Expr) and isinstance(s.value, ast.Call) and dotted(s.value.func) in ctx.skip_calls:
+        ctx.seen_calls = getattr(ctx, "seen_calls", []) + [(dotted(s.value.func), [ast.unparse(a) for a in s.value.args])]
+        return block(ctx, rest, result)
+    if isinstance(s, ast.Assign) and isinstance(s.value, ast.List) and all(
+            isinstance(e, ast.Constant) and isinstance(e.value, str) for e in s.value.elts):
+        return block(ctx, rest, result)  # message fragments, only used by `raise`
     if isinstance(s, ast.Assign):
         if len(s.targets) == 1 and isinstance(s.targets[0], ast.Name):
             name = s.targets[0].id
@@ -422,6 +487,43 @@ def wrap_ok(body):
     return "\n".join(res)
 
 
+def gen_reader_seek(out):
+    """LasReader.seek(pos, whence): the range tests and the new cursor, over Python ints"""
+    from laspy.lasreader import LasReader
+    fd = get_funcdef(LasReader.seek)
+    pnames = [a.arg for a in fd.args.args]
+    if pnames != ["self", "pos", "whence"]:
+        raise TranslationError(f"signature of LasReader.seek changed: {pnames}")
+    ctx = Ctx({}, {}, {}, {"pos": "Int", "whence": "Int"})
+    ctx.all_int = True
+    ctx.attr_map = {"self.header.point_count": ("point_count", "Int"), "self.points_read": ("points_read", "Int"),
+                    "io.SEEK_SET": ("(0 : Int)", "Int"), "io.SEEK_CUR": ("(1 : Int)", "Int"), "io.SEEK_END": ("(2 : Int)", "Int")}
+    ctx.skip_calls = {"self.point_source.seek"}
+    ctx.skip_assign = {"self.points_read": "point_index"}
+
+    def fallthrough(c):
+        raise TranslationError("LasReader.seek: control falls off the end")
+
+    body = block(ctx, fd.body, fallthrough)
+    if ctx.ret_type != "Int" or not ctx.raises:
+        raise TranslationError("LasReader.seek: unexpected shape")
+    if getattr(ctx, "seen_assign", set()) != {"self.points_read"}:
+        raise TranslationError("LasReader.seek no longer stores the new cursor in self.points_read")
+    calls = getattr(ctx, "seen_calls", [])
+    if not calls or any(c != ("self.point_source.seek", ["point_index"]) for c in calls):
+        raise TranslationError(f"LasReader.seek: point source is sought with {calls}")
+    rets = [n for n in ast.walk(fd) if isinstance(n, ast.Return)]
+    if len(rets) != 1 or not (isinstance(rets[0].value, ast.Name) and rets[0].value.id == "point_index"):
+        raise TranslationError("LasReader.seek no longer returns point_index")
+    body = wrap_ok(body.replace('RAISE "', 'Except.error "'))
+    out.append("namespace Reader")
+    out.append("/-- `LasReader.seek`: returns the new cursor (also stored in `points_read` and handed to the point source) -/")
+    out.append("def seek (point_count points_read pos whence : Int) : Except String Int :=")
+    out.append(textwrap.indent(body, "  "))
+    out.append("end Reader")
+    out.append("")
+
+
 def gen_funs():
     out = [
         "/- GENERATED by translator/py2lean.py from the live laspy package. Do not edit. -/",
@@ -471,6 +573,7 @@ def gen_funs():
     out.append("  { level := " + fields["level"] + ", x := " + fields["x"] + ", y := " + fields["y"] + ", z := " + fields["z"] + " }")
     out.append("end Copc")
     out.append("")
+    gen_reader_seek(out)
     out.append("end Gen")
     return "\n".join(out) + "\n", {"ge_flags": flags}
 
